@@ -25,6 +25,8 @@ def make_case(rc):
         y, m, dd = rc['y'], rc['m'], rc['d']
         if via == 'direct':
             out = I.outcome(lambda: rt._date(y, m, dd))
+        elif via == 'literal':          # the three numbers written in the formula text
+            out = I.eval_formula('=DATE(%d,%d,%d)' % (y, m, dd), {}, addr='H9')
         else:
             out = I.eval_formula('=DATE(A1,B1,C1)', {'A1': y, 'B1': m, 'C1': dd}, addr='H9')
         coq = 'CDate %s %s %s %s' % (C.cz(y), C.cz(m), C.cz(dd), C.cres(out))
@@ -109,6 +111,8 @@ def gen_recipes(rng, n):
             d = rng.choice([rng.randint(-800, 800), rng.randint(-3, 35), 0, -1, -2, 31, 29])
             if via == 'formula' and (m < 0 or d < 0 or y < 0):
                 pass   # negative numbers in cells are fine
+            if via == 'formula' and y >= 0 and m >= 0 and d >= 0 and rng.random() < 0.5:
+                via = 'literal'
             out.append({'kind': 'date', 'y': y, 'm': m, 'd': d, 'via': via})
         elif r < 0.4:
             out.append({'kind': 'ymd', 'w': rng.randint(0, 2), 'v': rdate(rng, True), 'via': via})
@@ -150,7 +154,8 @@ def gen_recipes(rng, n):
 
 
 def corpus():
-    rs = [{'kind': 'date', 'y': 2022, 'm': 5, 'd': -2, 'via': 'direct'}, {'kind': 'date', 'y': 2022, 'm': 5, 'd': -2, 'via': 'formula'},
+    rs = [{'kind': 'date', 'y': 2023, 'm': 2, 'd': 30, 'via': 'literal'}, {'kind': 'date', 'y': 2023, 'm': 14, 'd': 31, 'via': 'literal'}, {'kind': 'date', 'y': 2024, 'm': 4, 'd': 31, 'via': 'literal'},
+          {'kind': 'date', 'y': 2022, 'm': 5, 'd': -2, 'via': 'direct'}, {'kind': 'date', 'y': 2022, 'm': 5, 'd': -2, 'via': 'formula'},
           {'kind': 'date', 'y': 2021, 'm': 14, 'd': 31, 'via': 'direct'}, {'kind': 'date', 'y': 2020, 'm': 0, 'd': 0, 'via': 'direct'},
           {'kind': 'date', 'y': 2020, 'm': -13, 'd': 400, 'via': 'direct'}, {'kind': 'date', 'y': 9999, 'm': 12, 'd': 32, 'via': 'direct'},
           {'kind': 'datedif', 's': D(2019, 12, 25), 'e': D(2020, 12, 10), 'mode': 'YM', 'via': 'direct'},
